@@ -267,6 +267,7 @@ def main(argv=None):
                                      args.workers)
     counters = Counters()
     nontrivial = set()
+    sub_cases = set()
     samples = []
     steps = 0
     known_instances = {}
@@ -276,9 +277,10 @@ def main(argv=None):
             continue
         Counters.merge(counters, res.get("counters", {}))
         steps += res.get("steps", 0)
-        for dg in res.get("digests", []) or (
-                [res["digest"]] if res.get("digest") else []):
-            nontrivial.add(dg)
+        if res.get("digest"):
+            nontrivial.add(res["digest"])
+        for dg in res.get("digests", []):
+            sub_cases.add(dg)
         if res.get("sample") is not None and len(samples) < 4:
             samples.append(res["sample"])
         for vio in res.get("violations", []):
@@ -335,6 +337,7 @@ def main(argv=None):
             "distinct_nontrivial": len(nontrivial),
             "rule": check.RULE,
             "samples": samples,
+            "distinct_nontrivial_sub_cases": len(sub_cases),
             "runs_planned": plan["runs"],
             "runs_skipped_for_wall_budget": stats["skipped_for_budget"],
             "seeds": {"batch_seed": args.seed,
